@@ -480,6 +480,36 @@ func targets() []*target {
 			params: []string{"(f_trim : bytes -> bytes -> bytes)", "(f_findWriter : Z -> option Z)", "(pc_lvl : Z)", "(pc_msg : bytes)", "(tr_ : list deliv)"},
 			result: "list deliv", final: "tr_"},
 
+		// ---- the std-log bridge (C14, C15): what NewLogLogger builds and what handlerWriter.Write does with it ----
+		// NewLogLogger: the writer handed to log.New as the tuple of its four fields; the flags word, the levels of the
+		// logger and io.Discard are part of the fragment, so that a construction-time decision is a different value
+		{pkg: slogPkg, recv: "", fn: "NewLogLogger", coq: "new_log_logger", file: "Bridge", strict: true, fallback: "BridgeRef.new_log_logger_ref",
+			comment: "(the writer, prefix and flags given to log.New)", panicT: "BridgeNone",
+			tymap: map[string]string{"Logger": "Z", "handlerWriter": "Z * Z * bool * Z", "*handlerWriter": "Z * Z * bool * Z", "io.Writer": "Z * Z * bool * Z", "*log.Logger": "bridge"},
+			opaque: map[string]string{"io.Discard": "w_discard"},
+			calls: map[string]callSpec{
+				"log.New":      {pure: "mk_bridge %0 %1 %2"},
+				"IsAnyBitsSet": {pure: "(negb (Z.land g_flags %0 =? 0))"},
+				"IsAllBitsSet": {pure: "(Z.land g_flags %0 =? %0)"},
+				"Logger.Level": {pure: "f_level %r"},
+				"GetLevel":     {pure: "g_deflevel"},
+			},
+			params: []string{"(f_level : Z -> Z)", "(g_flags g_deflevel : Z)", "(h : Z)", "(lvl : Z)"}, result: "bridge", final: "BridgeNone"},
+		// handlerWriter.Write whole: the logger is asked at WRITE time, the program counter is taken at depth 4 plus the
+		// skip counts iff capturePC, the bytes go to WriteInternal at the bridge severity
+		{pkg: slogPkg, recv: "handlerWriter", fn: "Write", coq: "bridge_write", file: "Bridge", strict: true, fallback: "BridgeRef.bridge_write_ref",
+			comment: "(returns (n, err, trace of WriteInternal calls))", panicT: "(0, @None unit, [BWPanic])", effects: []string{"tr_"},
+			tymap: map[string]string{"Logger": "Z", "LogLoggerAware": "Z", "uintptr": "Z", "[]byte": "bytes", "error": "option unit"},
+			calls: map[string]callSpec{
+				"Logger.Enabled":               {pure: "f_enabled %r %0"},
+				"Logger.Skip":                  {pure: "f_skip %r"},
+				"getpc":                        {pure: "f_getpc %0 %1"},
+				"LogLoggerAware.WriteInternal": {ev: "BWInternal %r %1 %2 %3", res: "(w_n, w_e)", lazy: true},
+			},
+			params: []string{"(f_enabled : Z -> Z -> bool)", "(f_skip : Z -> Z)", "(f_getpc : Z -> Z -> Z)", "(as_LogLoggerAware_of_Logger : Z -> option Z)", "(w_n : Z)", "(w_e : option unit)",
+				"(s_l s_lvl : Z)", "(s_capturePC : bool)", "(s_extraFrames : Z)", "(buf : bytes)", "(tr_ : list bwev)"},
+			result: "Z * option unit * list bwev", final: "(n, err, tr_)"},
+
 		// ---- the buffer methods of PrintCtx (C19) ----
 		bufT("empty", "buf_empty", nil, "bool", "false", false),
 		bufT("Len", "buf_len", nil, "Z", "0", false),
@@ -634,6 +664,7 @@ var genFiles = [][2]string{
 	{"Loggers", "Require Import Verif.Model.Base Verif.Model.Decision Verif.Model.Dec Verif.Model.GoSem Verif.Model.TreeRef."},
 	{"Handlers", "Require Import Verif.Model.Base Verif.Model.Decision Verif.Model.GoSem Verif.Model.AdaptRef."},
 	{"Routes", "Require Import Verif.Model.Base Verif.Model.Decision Verif.Model.GoSem Verif.Model.TreeRef Verif.Model.RouteRef."},
+	{"Bridge", "Require Import Verif.Model.Base Verif.Model.Decision Verif.Model.GoSem Verif.Model.BridgeRef."},
 	{"Termination", "Require Import Verif.Model.Base Verif.Model.Decision Verif.Model.GoSem Verif.Model.Terminate Verif.Model.TermRef."},
 	{"Context", "Require Import Verif.Model.Base Verif.Model.Decision Verif.Model.GoSem Verif.Model.Attrs Verif.Model.PcRef."},
 	{"LevelNames", "Require Import Verif.Model.Base Verif.Model.Decision Verif.Model.Dec Verif.Model.GoSem Verif.Model.LevelRef."},
